@@ -156,7 +156,7 @@ def stage(tier, seed, scratch):
             R.update(status="inconclusive", detail="solver answered unknown on %s" % k)
             return R
     # ---- tie the encoding to the real function: exhaustive native replay
-    binary, out = vlib.build_replay(True, "c14dump")
+    binary, out = vlib.build_replay(True, "c14dump", "c14")
     if not binary:
         R.update(status="inconclusive", detail="c14dump build failed: " + out[-1500:])
         return R
@@ -236,7 +236,7 @@ def _write_replay(name, payload):
 
 def replay(path):
     d = json.load(open(path))
-    binary, out = vlib.build_replay(True, "c14dump")
+    binary, out = vlib.build_replay(True, "c14dump", "c14")
     if not binary:
         print("build failed")
         return 2
